@@ -418,6 +418,7 @@ func (r *RefCount[T]) startResolveLocked() {
 // resolve is the goroutine to resolve the value to the container.
 func (r *RefCount[T]) resolve(ctx context.Context, waitCh, doneCh chan struct{}, nonce uint32) {
 	defer close(doneCh)
+	defer verifPoint(4, nonce)
 
 	verifPoint(0, nonce)
 	if waitCh != nil {
